@@ -145,7 +145,7 @@ def novel_products(cmd, rng, cap=S.CAP, limit=6000):
 
 def random_args(cmd, rng, cap=S.CAP, force=None):
     a = {}
-    pool = gen.related_pool(rng) if rng.random() < 0.1 else None  # arguments that are equal / adjacent / double one another
+    pool = gen.related_pool(rng) if rng.random() < 0.15 else None  # arguments that are equal / adjacent / double one another / complementary
     for name, (kind, width, d) in cmd.args.items():
         if kind == "bs":
             if d is S.REQ:
